@@ -6,7 +6,7 @@ fn in_image(x: f64, y: f64, eps: f64) -> bool {
   let ay = if y < 0.0 { -y } else { y };
   if !(x >= 0.0 && x <= 8.0 && ay <= 2.0) { return false; }
   if ay <= 1.0 { return true; }
-  let mut q = (x / 2.0) as u64 as f64;
+  let mut q = (x * 0.5) as u64 as f64;
   if q > 3.0 { q = 3.0; }
   let u = x - (2.0 * q + 1.0);
   let au = if u < 0.0 { -u } else { u };
